@@ -2,10 +2,10 @@ package mon
 
 import (
 	"fmt"
-	"sync/atomic"
 	"math/rand"
 	"net/url"
 	"sort"
+	"sync/atomic"
 	"time"
 
 	"github.com/ory/fosite"
